@@ -17,6 +17,7 @@ def run(ck, progs):
     ck.rule("C05.7", "a checkpoint is labelled with the number of history entries its state includes (taken after the processed event was "
                      "appended) and the coast forward starts at that entry; take and restore walk the arenas in the same order and thread "
                      "the section cursor the same way")
+    ck.rule("C05.8", "index ranges of the rollback: send_anti_messages undoes exactly the entries [past_i, count) and cuts the history to past_i; silent_execution re-dispatches exactly the processed entries of [last_i, past_i), none when last_i >= past_i (both evaluated over indices and tag bits for all positions 0..4)")
     for cfg, P in progs.items():
         R.check_silent(ck, P, "C05.1")
         R.check_rng_rollbackable(ck, P, "C05.2")
@@ -27,3 +28,4 @@ def run(ck, progs):
         rules_msg.check_rmw_tag_discipline(ck, P, "C05.6")
         R.check_checkpoint_position(ck, P, "C05.7")
         R.check_arena_order(ck, P, "C05.7")
+        R.check_rollback_ranges(ck, P, "C05.8")
